@@ -522,6 +522,9 @@ pub enum TraceLine {
     /// Fine-grained mode: the segment that follows ends with this agent parked in the middle of a
     /// critical section (`<aid> <InCs site>`); printed before the segment's `l` lines.
     M(String),
+    /// Fine-grained mode: the segment that follows ends with its acting agent parked at a `Between` site
+    /// (`<aid> <site>`, outside any critical section); its next segment is a continuation without a model step.
+    N(String),
     Comment(String),
 }
 
@@ -534,6 +537,7 @@ impl TraceLine {
             TraceLine::U(s) => format!("u {}", s),
             TraceLine::S(s) => format!("s {}", s),
             TraceLine::M(s) => format!("m {}", s),
+            TraceLine::N(s) => format!("n {}", s),
             TraceLine::Comment(s) => format!("# {}", s),
         }
     }
